@@ -763,21 +763,32 @@ class Executor(ExprMixin, StmtMixin, Engine):
             self.probe_calls.append(c)
         top = self.m.contracts.get(self.cur_fn_stack[0]) if self.cur_fn_stack else None
         if top is not None and c.key in top.call_asserts and len(self.cur_fn_stack) == 1:
+            held = []
             for j, e in enumerate(top.call_asserts[c.key]):
                 e, props = clause(e)
                 self.clause_props = props
                 scope = {'arg_' + k: v for k, v in args.items()}
                 self.prove(st, self.spec(e, st, scope, self.fn_old), 'call-assert', line, '%s.%d' % (cname, j), text=e,
-                           stable_name='%s:call-assert:%s.%d' % (self.cur_fn_stack[0].split(':')[1], cname, j))
+                           stable_name='%s:call-assert:%s.%d' % (self.cur_fn_stack[0].split(':')[1], cname, j), defer=held)
                 self.clause_props = None
+            for g in held:
+                st.assume(g)
             self.call_assert_hits = getattr(self, 'call_assert_hits', set()) | {c.key}
         # 1. precondition
+        held = []
         for j, r in enumerate(c.requires):
+            r, rprops = clause(r)
             g = self.spec(r, st, args, st)
             if getattr(self.m.contracts[self.cur_fn_stack[0]], 'assume_callee_pre', False):
-                st.assume(g)      # this view leaves callee preconditions to the main view
+                held.append(g)      # this view leaves callee preconditions to the main view
             else:
-                self.prove(st, g, 'pre', line, '%s.%d' % (cname, j), text=r)
+                # a tagged precondition is a property-level clause of the CALLER's obligation
+                self.clause_props = (sorted(set(rprops) | set(self.m.contracts[self.cur_fn_stack[0]].prop))
+                                     if rprops else None)
+                self.prove(st, g, 'pre', line, '%s.%d' % (cname, j), text=r, defer=held)
+                self.clause_props = None
+        for g in held:
+            st.assume(g)
         # a pure contract whose only postcondition defines the result as a term: use the term
         if c.pure and not c.raises and not c.may_raise and not c.modifies and len(c.ensures) == 1 \
                 and isinstance(c.ensures[0], str) and c.ensures[0].startswith('result == '):
@@ -1114,6 +1125,7 @@ class Executor(ExprMixin, StmtMixin, Engine):
         self.mutated_globals = mutated_global_names(fdef)
         self.concat_axioms = bool(getattr(c, 'options', {}).get('concat_axioms'))
         self.slice_axioms = bool(getattr(c, 'options', {}).get('slice_axioms'))
+        self.blank_axiom = bool(getattr(c, 'options', {}).get('blank_axiom'))
         self.timeout_ms = getattr(c, 'options', {}).get('timeout_ms')
         st = self.initial_state(c)
         # class-typed first parameter of classmethods
@@ -1121,7 +1133,7 @@ class Executor(ExprMixin, StmtMixin, Engine):
             if isinstance(pt, TObj) and pt.kind == 'class':
                 st.env[pn] = mk_obj('class', pt.py)
         for r in c.requires:
-            st.assume(self.spec(r, st, {}, st))
+            st.assume(self.spec(clause(r)[0], st, {}, st))
         v = solve.satisfiable(st.pc)
         if v == 'unsat':
             self.results.append(ObResult(key.split(':')[1] + ':vacuous-precondition', 'cover', key, 0,
@@ -1154,12 +1166,13 @@ class Executor(ExprMixin, StmtMixin, Engine):
                 cond = c.raises.get(exc.name)
                 if cond is not None:
                     self.prove(s1, self.spec(cond, old, {}, old), 'raises-only-if', exc.line, exc.name, text=cond)
+                held_exc = []
                 for j, e in enumerate(c.ensures_exc):
                     e, props = clause(e)
                     self.clause_props = props
                     self.prove(s1, self.spec(e, s1, self.entry_extra(s1), old), 'post-exc', exc.line,
                                '%d:%s' % (j, exc.name), text=e,
-                               stable_name='%s:post-exc:%d' % (key.split(':')[1], j))
+                               stable_name='%s:post-exc:%d' % (key.split(':')[1], j), defer=held_exc)
                     self.clause_props = None
                 continue
             if out.kind in ('break', 'continue'):
@@ -1178,11 +1191,12 @@ class Executor(ExprMixin, StmtMixin, Engine):
                 if cond is not None:
                     # "iff": a normal exit is only allowed when the raise condition was false
                     self.prove(s1, z3.Not(self.spec(cond, old, {}, old)), 'raises-iff', line, exc, text=cond)
+            held = []
             for j, e in enumerate(c.ensures):
                 e, props = clause(e)
                 self.clause_props = props
                 self.prove(s1, self.spec(e, s1, extra, old), 'post', line, str(j), text=e,
-                           stable_name='%s:post:%d' % (key.split(':')[1], j))
+                           stable_name='%s:post:%d' % (key.split(':')[1], j), defer=held)
                 self.clause_props = None
             if c.options.get('restores'):
                 # net-effect-nil contract: every location of the modifies list holds its entry value again
